@@ -112,8 +112,83 @@ struct Case {
     blocks: Vec<(ElementType, Vec<usize>)>,
 }
 
+/// High-valence meshes: fans of many triangles around a hub node, wheels of many tetrahedra
+/// around an axis edge -- one element's nodes are incident to hundreds of elements, so the
+/// candidate list of a row is long (the regular families never exceed a few dozen candidates).
+/// A few hubs per mesh, mixed with ordinary and lower-dimensional elements.
+fn gen_high_valence(r: &mut Rng, big: bool) -> Case {
+    let tets = r.chance(1, 3);
+    let dim = if tets { 3 } else { 2 };
+    let mut budget: i64 = if big { 400 } else { 330 };
+    let mut els: Vec<El> = Vec::new();
+    let mut nn = 0usize;
+    let hubs = r.range(1, 3);
+    for h in 0..hubs {
+        // the first hub is always beyond 128 incident elements; further ones are of any size
+        let lo: i64 = if h == 0 { 130 } else { 8 };
+        let hi: i64 = if tets { 200 } else { 300 };
+        if budget < lo {
+            break;
+        }
+        let k = r.range(lo, hi.min(budget)) as usize;
+        budget -= k as i64;
+        let closed = r.chance(1, 2);
+        // where the hub / axis nodes stand in each element's node list: 0 first, 1 last, 2 anywhere
+        let place = r.below(3);
+        let ring = if closed { k } else { k + 1 };
+        let hub0 = nn;
+        let nhub = if tets { 2 } else { 1 };
+        let ring0 = nn + nhub;
+        nn += nhub + ring;
+        for i in 0..k {
+            let a = ring0 + i;
+            let b = ring0 + (i + 1) % ring;
+            let hubn: Vec<usize> = (hub0..hub0 + nhub).collect();
+            let mut rim = vec![a, b];
+            if r.chance(1, 2) {
+                rim.swap(0, 1);
+            }
+            let mut nodes: Vec<usize> = match place {
+                0 => hubn.iter().cloned().chain(rim).collect(),
+                1 => rim.into_iter().chain(hubn.iter().cloned()).collect(),
+                _ => {
+                    let mut v: Vec<usize> = hubn.iter().cloned().chain(rim).collect();
+                    shuffle(r, &mut v);
+                    v
+                }
+            };
+            if place != 2 && tets && r.chance(1, 2) {
+                // the two axis nodes in either order
+                let (x, y) = if place == 0 { (0, 1) } else { (2, 3) };
+                nodes.swap(x, y);
+            }
+            els.push((if tets { ElementType::Tetrahedron } else { ElementType::Triangle }, nodes));
+        }
+    }
+    // ordinary elements over the same nodes (some attached to a hub), and lower-dimensional ones
+    for _ in 0..r.range(0, 8) {
+        let t = *r.pick(top_types(dim));
+        if nn >= t.node_count() {
+            els.push((t, distinct_nodes(r, nn, t.node_count())));
+        }
+    }
+    for _ in 0..r.range(0, 6) {
+        let t = *r.pick(low_types(dim));
+        els.push((t, distinct_nodes(r, nn, t.node_count())));
+    }
+    if r.chance(1, 4) {
+        nn += r.range(1, 3) as usize; // unused nodes
+    }
+    let extra_empty = r.chance(1, 6);
+    let blocks = into_blocks(r, els, extra_empty);
+    Case { fam: "high_valence", nn, cdim: dim, blocks }
+}
+
 fn gen_case(r: &mut Rng, tier: &str) -> Case {
     let big = tier == "thorough";
+    if r.chance(1, 100) {
+        return gen_high_valence(r, big);
+    }
     let cap = if big { 34 } else { 22 }; // bound on the number of top-dimensional elements
     let fam = r.below(13);
     let dim = if r.chance(1, 2) { 2 } else { 3 };
